@@ -2,7 +2,7 @@
 import numpy as np
 
 def grid(rng, N, kind=None):
-    kinds = ['uniform', 'exponential', 'quadratic', 'random']
+    kinds = ['uniform', 'exponential', 'quadratic', 'random', 'asym', 'dadi-quadratic']
     if kind is None:
         kind = kinds[int(rng.integers(len(kinds)))]
     if kind == 'uniform':
@@ -15,6 +15,14 @@ def grid(rng, N, kind=None):
     elif kind == 'quadratic':
         u = np.linspace(0, 1, N)
         g = u * u * (3 - 2 * u) * 0.5 + u * 0.5
+    elif kind == 'asym':
+        # strongly asymmetric: geometric spacings (first and last spacing differ by a large factor)
+        q = float(rng.uniform(1.15, 1.6)) ** (1 if rng.random() < 0.5 else -1)
+        inc = q ** np.arange(N - 1)
+        g = np.concatenate([[0.], np.cumsum(inc)]); g = g / g[-1]
+    elif kind == 'dadi-quadratic':
+        # the library's own quadratic grid (dense near 0, first spacing much smaller than the last)
+        u = np.linspace(0, 1, N); g = u * u * 0.9 + u * 0.1
     else:
         inc = rng.uniform(0.2, 1.0, N - 1)
         g = np.concatenate([[0.], np.cumsum(inc)])
